@@ -602,7 +602,7 @@ func c12PanicShape(r c12Result) string {
 	case strings.HasPrefix(r.PType, "runtime."):
 		return "runtime-" + c12Slug(strings.TrimPrefix(m, "runtime error:"), 5)
 	default:
-		return "explicit-" + c12Slug(m, 4)
+		return "explicit-" + c12Slug(m, 3)
 	}
 }
 
